@@ -169,8 +169,8 @@ pub fn strategy() -> BoxedStrategy<Case> {
 pub fn streams() -> Vec<Box<dyn AnyStream>> {
     vec![Box::new(Stream::<Case> {
         name: "sequences",
-        quick: 12_000,
-        thorough: 500_000,
+        quick: 15_000,
+        thorough: 1_000_000,
         source: Source::Gen(Box::new(strategy)),
         check: Box::new(check),
     })]
